@@ -21,6 +21,7 @@ import (
 	"strconv"
 	"strings"
 	"testing"
+	"unicode/utf8"
 
 	"golang.org/x/perf/benchunit"
 	kit "golang.org/x/perf/internal/verifkit"
@@ -695,9 +696,38 @@ func c10BytesInNumerator(c c10Unit) bool {
 	return false
 }
 
+// c10IsSpaceRune is the monitor's own table of the Unicode White_Space
+// property (Unicode 15, PropList.txt), decided per RUNE. It is only used to
+// keep separator characters out of generated words; which of them are
+// generated as separators is decided by the generators.
+func c10IsSpaceRune(r rune) bool {
+	switch {
+	case r >= 0x09 && r <= 0x0D, r == 0x20, r == 0x85, r == 0xA0, r == 0x1680,
+		r >= 0x2000 && r <= 0x200A, r == 0x2028, r == 0x2029, r == 0x202F, r == 0x205F, r == 0x3000:
+		return true
+	}
+	return false
+}
+
+// c10IsComponent: a non-empty, valid UTF-8 word without any separator rune.
+func c10IsComponent(s string) bool {
+	if s == "" || !utf8.ValidString(s) {
+		return false
+	}
+	for _, r := range s {
+		if r == '/' || r == '*' || r == '-' || c10IsSpaceRune(r) {
+			return false
+		}
+	}
+	return true
+}
+
 func c10CheckUnit(c c10Unit) *kit.Fail {
+	if len(c.Seps) != len(c.Toks) {
+		return nil
+	}
 	for i := range c.Toks {
-		if strings.ContainsAny(string(c.Toks[i]), "/*- \t") || c.Toks[i] == "" {
+		if !c10IsComponent(string(c.Toks[i])) {
 			return nil // not a single component (only the generator's "MiB/" placeholder), skip
 		}
 	}
@@ -766,6 +796,143 @@ func c10GenUnit(r *kit.Rand, i int) c10Unit {
 		c.Tail = kit.B(kit.Pick(r, []string{"/", "-", " ", "*"}))
 	}
 	return c
+}
+
+// --- units with non-ASCII text ----------------------------------------------
+//
+// "A unit is treated as binary exactly when bytes appear in its numerator ...
+// for all unit strings": unit strings are UTF-8 text, so words may hold
+// non-ASCII letters (àB is one word and it is not the word B, exactly as dB is
+// not) and the blank between components may be any Unicode space character
+// (general category Zs: U+0020, U+00A0, U+1680, U+2000..U+200A, U+202F, U+205F,
+// U+3000; the C04 quantifier names the separators "'/', '*', '-' and spaces").
+// Truth is known by construction, per rune; nothing is tokenised here.
+
+// every character of general category Zs except the ASCII blank
+var c10WideSpaces = []string{"\u00a0", "\u1680", "\u2000", "\u2001", "\u2002", "\u2003", "\u2004", "\u2005", "\u2006", "\u2007", "\u2008", "\u2009", "\u200a", "\u202f", "\u205f", "\u3000"}
+
+// letters and symbols that are not white space; several have a UTF-8 form
+// holding the bytes 0x85 / 0xA0 (NEL / NBSP when misread as Latin-1) or 0x20..0x2F
+var c10Letters = []string{"à", "Å", "†", "…", "堅", "力", "é", "ß", "µ", "Ω", "日", "𝔅", "Ж", "ı", "ꠀ", "𐠅", "\u0120", "\u012f", "\u082a"}
+
+func c10RandLetter(r *kit.Rand) string {
+	if r.Chance(0.6) {
+		return kit.Pick(r, c10Letters)
+	}
+	ranges := [][2]rune{{0xC0, 0x24F}, {0x370, 0x3FF}, {0x400, 0x4FF}, {0x4E00, 0x9FFF}, {0xA000, 0xA48C}, {0x1F300, 0x1F5FF}}
+	for {
+		rg := ranges[r.Intn(len(ranges))]
+		ch := rg[0] + rune(r.Intn(int(rg[1]-rg[0])+1))
+		if ch == 0xD7 || ch == 0xF7 {
+			continue // × and ÷: the statement does not say whether they multiply/divide, not generated
+		}
+		if !c10IsSpaceRune(ch) && utf8.ValidRune(ch) {
+			return string(ch)
+		}
+	}
+}
+
+func c10WideTok(r *kit.Rand) string {
+	switch r.Intn(10) {
+	case 0, 1, 2:
+		return kit.Pick(r, c10ByteToks)
+	case 3:
+		return c10PickTok(r)
+	}
+	core := kit.Pick(r, []string{"B", "B", "B", "MB", "bytes", "ns", "b", "sec", "op", ""})
+	pre, post := "", ""
+	for k := r.Intn(3); k > 0; k-- {
+		pre += c10RandLetter(r)
+	}
+	for k := r.Intn(3); k > 0; k-- {
+		post += c10RandLetter(r)
+	}
+	if pre == "" && post == "" {
+		if r.Bool() {
+			pre = c10RandLetter(r)
+		} else {
+			post = c10RandLetter(r)
+		}
+	}
+	return pre + core + post
+}
+
+func c10GenWideUnit(r *kit.Rand, i int) c10Unit {
+	n := r.Range(1, 5)
+	var c c10Unit
+	for j := 0; j < n; j++ {
+		sep := ""
+		if j > 0 || r.Chance(0.05) {
+			switch r.Intn(10) {
+			case 0, 1, 2:
+				sep = "/"
+			case 3:
+				sep = "-"
+			case 4:
+				sep = "*"
+			case 5, 6, 7:
+				sep = kit.Pick(r, c10WideSpaces)
+			case 8:
+				sep = kit.Pick(r, c10WideSpaces) + kit.Pick(r, []string{"/", "*", "-", " ", ""}) + kit.Pick(r, c10WideSpaces)
+			default:
+				sep = kit.Pick(r, []string{" ", "\t", "/" + kit.Pick(r, c10WideSpaces), kit.Pick(r, c10WideSpaces) + "*"})
+			}
+		}
+		c.Seps = append(c.Seps, kit.B(sep))
+		c.Toks = append(c.Toks, kit.B(c10WideTok(r)))
+	}
+	if r.Chance(0.05) {
+		c.Tail = kit.B(kit.Pick(r, c10WideSpaces))
+	}
+	return c
+}
+
+func c10IsASCII(s string) bool {
+	for i := 0; i < len(s); i++ {
+		if s[i] >= 0x80 {
+			return false
+		}
+	}
+	return true
+}
+
+// non-trivial: the class of the unit hinges on non-ASCII text - a bytes word
+// that is delimited by a multi-byte space, or a word that holds a bytes word
+// next to a non-ASCII letter (so that cutting the letter apart would expose it).
+func c10WideNonTrivial(c c10Unit) bool {
+	if len(c.Seps) != len(c.Toks) {
+		return false
+	}
+	hit := false
+	for i, t := range c.Toks {
+		ts := string(t)
+		if !c10IsComponent(ts) {
+			return false
+		}
+		if c10IsByteTok(ts) {
+			after := string(c.Tail)
+			if i+1 < len(c.Seps) {
+				after = string(c.Seps[i+1])
+			}
+			if !c10IsASCII(string(c.Seps[i])) || !c10IsASCII(after) {
+				hit = true
+			}
+		} else if !c10IsASCII(ts) {
+			for _, b := range c10ByteToks {
+				if strings.HasPrefix(ts, b) || strings.HasSuffix(ts, b) {
+					hit = true
+				}
+			}
+		}
+	}
+	return hit
+}
+
+func c10CheckWideUnit(c c10Unit) *kit.Fail {
+	if c10WideNonTrivial(c) {
+		kit.Count("units whose class hinges on a multi-byte space or on a non-ASCII letter next to a bytes word", 1)
+	}
+	return c10CheckUnit(c)
 }
 
 func c10EnumUnits(thorough bool, yield func(c10Unit)) {
@@ -927,6 +1094,10 @@ func TestVerifC10(t *testing.T) {
 		kit.Class[c10Unit]{
 			Name: "unit-class-random", Quick: 30000, Thorough: 500000, Gen: c10GenUnit, Check: c10CheckUnit, NonTrivial: c10UnitNonTrivial, MinNonTrivial: 5000,
 			Rule: "1-5 components from a pool of byte words (B, MB, bytes) and non-byte words (incl. b, dB, Bq, nsx, xns) with separators / - * blank tab and combinations; non-trivial as above",
+		},
+		kit.Class[c10Unit]{
+			Name: "unit-class-unicode", Quick: 30000, Thorough: 500000, Gen: c10GenWideUnit, Check: c10CheckWideUnit, NonTrivial: c10WideNonTrivial, MinNonTrivial: 5000,
+			Rule: "1-5 components: byte words (B, MB, bytes), ASCII non-byte words, and words made of a core (B, MB, bytes, ns, b, sec, op or nothing) with 1-4 non-ASCII letters/symbols around it (à Å † 堅 … and random runes of several blocks, none of them white space; many with UTF-8 bytes 0x85/0xA0); separators / - * blank tab and every Unicode space character of category Zs (U+00A0, U+1680, U+2000..U+200A, U+202F, U+205F, U+3000), alone and combined; truth by construction per rune. non-trivial = a bytes word delimited by a multi-byte space, or a non-ASCII word that starts or ends with a bytes word",
 		},
 		kit.Class[c10NoOp]{
 			Name: "no-op-scale", Quick: 60000, Thorough: 3000000, Gen: c10GenNoOp, Check: c10CheckNoOp, MinNonTrivial: 30000,
